@@ -58,3 +58,15 @@ impl Board {
         self.update_pin_info()
     }
 }
+
+impl crate::BoardBuilder {
+    /// verification hook: a builder in an arbitrary state (no validation)
+    pub fn verif_from_board(board: Board) -> Self {
+        Self { board }
+    }
+
+    /// verification hook: the builder's current fields, unvalidated
+    pub fn verif_board(&self) -> Board {
+        self.board
+    }
+}
